@@ -69,7 +69,7 @@ QuickJobs ==
     Job("splitfree3", 3, 2, "free", {}, Split),     \* 343 x 10
     Job("spell4", 4, 3, "dag", {}, Spell),          \* 160 x (1 + 3)
     Job("spell3", 3, 3, "dag", {"m1"}, Spell),      \* 10 x (1 + 2) x 8
-    DelJob("del3", 3, 3, "dag", {"m1", "m2"}, One) }\* 10 x 64 x 6 deletions
+    DelJob("del3", 3, 3, "dag", {"m1"}, One) }      \* 10 x 8 x 3 deletions
 \* thorough: one TLC run per job (the driver replays a job while TLC explores the next one)
 T_dag5 == { Job("dag5", 5, 3, "dag", {"m1"}, One) }                  \* 6 560 hierarchies x 32 placements
 T_dag4 == { Job("dag4", 4, 3, "dag", {"m1", "m2"}, One) }            \* 160 x 256
